@@ -7,6 +7,8 @@ python3 - <<'PY' > /tmp/matrix_jobs.txt
 import json, glob, os
 for mp in sorted(glob.glob('seeded/*/meta.json')):
     m = json.load(open(mp))
+    if os.environ.get('ROUNDS') and str(m.get('round', 1)) not in os.environ['ROUNDS'].split(','):
+        continue
     name = os.path.basename(os.path.dirname(mp))
     checks = [m['property']] + ([] if os.environ.get('TARGET_ONLY') else [c for c in sorted(m.get('checks', {})) if c != m['property']])
     print(name, ' '.join(checks))
